@@ -833,7 +833,9 @@ func (m *Machine) callFunction(wl *worklist, it *Item, fn *ssa.Function, args []
 	} else if recvT := fn.Signature.Recv(); recvT != nil {
 		pkgPath = pkgOfType(recvT.Type())
 	}
-	if !strings.HasPrefix(pkgPath, m.RepoPrefix) && !m.ExecReal[pkgPath] && pkgPath != "" {
+	// pure arithmetic methods of time.Duration (Round, Seconds, Minutes, Hours, Abs, ...) run from their real bodies
+	pureReal := strings.HasPrefix(name, "(time.Duration).") || name == "time.lessThanHalf"
+	if !strings.HasPrefix(pkgPath, m.RepoPrefix) && !m.ExecReal[pkgPath] && pkgPath != "" && !pureReal {
 		m.fail("unmodelled external call: %s (package %s)", name, pkgPath)
 	}
 	m.enterFunction(it, fn, args, binds, resultReg)
